@@ -7,6 +7,7 @@ import (
 	"math/big"
 	"sort"
 	"strings"
+	"time"
 
 	"github.com/NethermindEth/juno/core/felt"
 	"github.com/NethermindEth/juno/core/trie"
@@ -47,40 +48,50 @@ func feltPtrs(bits []string, isBits bool) []*felt.Felt {
 func realVerifyRange(c *RangeClaim) (more bool, class, msg string) {
 	root := hexFelt(c.Root)
 	first := bitsToFelt(c.First)
-	keys, values := feltPtrs(c.Keys, true), feltPtrs(c.Values, false)
-	var err error
-	var panicked bool
-	finished := lib.WithDeadline(verifyDeadline, func() {
-		var perr error
-		perr, panicked, _ = lib.Try(func() error {
+	type outcome struct {
+		more     bool
+		err      error
+		panicked bool
+		msg      string
+	}
+	call := func() outcome {
+		var o outcome
+		keys, values := feltPtrs(c.Keys, true), feltPtrs(c.Values, false)
+		perr, panicked, _ := lib.Try(func() error {
 			if c.Impl == "legacy" {
 				var ps *trie.ProofNodeSet
 				if !c.NoProof {
 					ps = toLegacy(c.Proof)
 				}
-				more, err = trie.VerifyRangeProof(&root, &first, keys, values, ps)
+				o.more, o.err = trie.VerifyRangeProof(&root, &first, keys, values, ps)
 			} else {
 				var ps *trie2.ProofNodeSet
 				if !c.NoProof {
 					ps = toTrie2(c.Proof)
 				}
-				more, err = trie2.VerifyRangeProof(&root, &first, keys, values, ps)
+				o.more, o.err = trie2.VerifyRangeProof(&root, &first, keys, values, ps)
 			}
 			return nil
 		})
 		if panicked {
-			msg = perr.Error()
+			o.panicked, o.msg = true, perr.Error()
 		}
-	})
-	switch {
-	case !finished:
-		return false, "hang", ""
-	case panicked:
-		return false, "panic", msg
-	case err != nil:
-		return false, "err", err.Error()
+		return o
 	}
-	return more, "ok", ""
+	for _, d := range []time.Duration{verifyDeadline, 2 * verifyDeadline} {
+		ch := make(chan outcome, 1)
+		if lib.WithDeadline(d, func() { ch <- call() }) {
+			o := <-ch
+			switch {
+			case o.panicked:
+				return false, "panic", o.msg
+			case o.err != nil:
+				return false, "err", o.err.Error()
+			}
+			return o.more, "ok", ""
+		}
+	}
+	return false, "hang", ""
 }
 
 // claimTruth decides the claim against the key/value set: is it true, and are there entries
@@ -138,8 +149,11 @@ func bitsAdd(bits string, d int64) (string, bool) {
 	return fmt.Sprintf("%0*s", len(bits), n.Text(2)), true
 }
 
-func (c *ctx) rangeSection(r *lib.RNG) {
+func (c *ctx) rangeSection(r *lib.RNG, out chan<- batch) {
 	res := c.res
+	rcfg := c.probeRangeCfg()
+	res.SetExtra("trie2_range_verifier_variant", map[string]any{"retrieve_checks_node_hash": rcfg[0] == '1',
+		"value_node_ends_walk_early": rcfg[1] == '1', "hash_child_at_consumed_key_is_the_leaf": rcfg[2] == '1'})
 	nTries := c.f.Scale(60, 600)
 	for ti := 0; ti < nTries; ti++ {
 		rr := r.Fork(uint64(ti))
@@ -165,11 +179,29 @@ func (c *ctx) rangeSection(r *lib.RNG) {
 			}
 			return cl
 		}
+		var pending batch
 		eval := func(cl *RangeClaim) {
 			isTrue, moreTruth := claimTruth(cl)
 			more, class, msg := realVerifyRange(cl)
 			res.Case(fmt.Sprintf("range/%d/%s/%s/%v", ti, cl.Kind, cl.First, cl.Keys), true)
 			res.Hit("range:" + impl + ":" + cl.Kind + ":" + class)
+			if impl == "trie2" && !cl.NoProof && (len(cl.Keys) == 0 || (len(cl.Keys) == 1 && cl.First == cl.Keys[0])) && len(cl.Keys) == len(cl.Values) {
+				// the two cases of trie2.VerifyRangeProof the Lean model covers
+				line := "r2 " + rcfg + " empty " + cl.Root + " " + cl.First + cl.Proof.toks(hashFnOf("ped"))
+				if len(cl.Keys) == 1 {
+					line = "r2 " + rcfg + " single " + cl.Root + " " + cl.First + " " + cl.Values[0] + cl.Proof.toks(hashFnOf("ped"))
+				}
+				implAns := class
+				if class == "ok" {
+					implAns = "ok 0"
+					if more {
+						implAns = "ok 1"
+					}
+				}
+				cc := cl
+				pending.checks = append(pending.checks, check{line: line, impl: implAns, sig: "trie2:range-model:" + cl.Kind, replay: func() any { return cc }})
+				res.Hit("range-model:" + cl.Kind)
+			}
 			honest := strings.HasPrefix(cl.Kind, "honest")
 			switch {
 			case class == "panic" || class == "hang":
@@ -282,6 +314,34 @@ func (c *ctx) rangeSection(r *lib.RNG) {
 		if f, ok := bitsAdd(kvs[rr.Intn(len(kvs))].K, -1); ok && spec.truth(f) == "0" {
 			eval(&RangeClaim{Impl: impl, Kind: "empty-range-claimed-left-of-entries", Trie: kvs, Root: rootHex, First: f, Proof: rp(f, f)})
 		}
+		// 3b. single-element claim "key holds <hash of an inner node>": the honest proof of a present key
+		// with the on-path child of the root node re-typed as a value node (all hashes stay right)
+		{
+			key := kvs[rr.Intn(len(kvs))].K
+			if p := rp(key, key); len(p) >= 2 {
+				q := p.clone()
+				for i := range q {
+					q[i].Cache = ""
+				}
+				n := q[0]
+				var inner string
+				switch {
+				case n.Kind == "E" && len(n.Path) < 251:
+					n.C, inner = Child{T: "v", F: n.C.F}, n.C.F
+				case n.Kind == "B":
+					if key[0] == '1' {
+						n.R, inner = Child{T: "v", F: n.R.F}, n.R.F
+					} else {
+						n.L, inner = Child{T: "v", F: n.L.F}, n.L.F
+					}
+				}
+				if inner != "" && n.Key == rootHex {
+					q[0] = n
+					eval(&RangeClaim{Impl: impl, Kind: "single-element-inner-hash-as-value-child-retyped", Trie: kvs, Root: rootHex, First: key,
+						Keys: []string{key}, Values: []string{inner}, Proof: q})
+				}
+			}
+		}
 		// 4. forged node sets: nothing in them is tied to the root
 		{
 			key := randBits(rr, 251)
@@ -302,5 +362,108 @@ func (c *ctx) rangeSection(r *lib.RNG) {
 				eval(cl)
 			}
 		}
+		// 5. trie2: the leaf value is itself the hash of a node that is in the set, and the leaf is
+		// offered as a hash child: the walk must stop at the consumed key
+		if impl == "trie2" {
+			if cl := leafIsNodeHashClaim(rr); cl != nil {
+				eval(cl)
+			}
+		}
+		if len(pending.checks) > 0 {
+			out <- pending
+		}
 	}
+}
+
+// leafIsNodeHashClaim builds a trie2 trie in which one key holds x = hash of the node
+// N = Edge(path "1", Value(7)), takes the honest proof of that key, re-types the leaf child as a hash
+// node, adds N under x and claims the key holds 7.
+func leafIsNodeHashClaim(rr *lib.RNG) *RangeClaim {
+	hf := hashFnOf("ped")
+	n := PNode{Kind: "E", Path: "1", C: Child{T: "v", F: "7"}}
+	x := n.nodeHash(hf)
+	n.Key = fhex(&x)
+	spec := TrieSpec{Impl: "trie2", Hash: "ped", Height: 251}
+	for _, k := range genKeys(rr, 251, 2+rr.Intn(5)) {
+		spec.KVs = append(spec.KVs, KV{K: k, V: genValue(rr)})
+	}
+	sort.Slice(spec.KVs, func(i, j int) bool { return spec.KVs[i].K < spec.KVs[j].K })
+	victim := rr.Intn(len(spec.KVs))
+	spec.KVs[victim].V = n.Key
+	bt, err := buildTrie(&spec)
+	if err != nil {
+		return nil
+	}
+	key := spec.KVs[victim].K
+	p, err := bt.rangeProof(key, key)
+	if err != nil || len(p) == 0 {
+		return nil
+	}
+	q := p.clone()
+	for i := range q {
+		q[i].Cache = ""
+	}
+	// the node whose child is the leaf: the one holding a value child with the leaf's felt
+	found := false
+	for i := range q {
+		for _, ch := range children(&q[i]) {
+			if ch.tag() == 'v' && ch.F == n.Key {
+				ch.T = "h"
+				found = true
+			}
+		}
+	}
+	if !found {
+		return nil
+	}
+	q = append(q, n)
+	return &RangeClaim{Impl: "trie2", Kind: "single-element-leaf-value-is-a-node-hash", Trie: spec.KVs, Root: fhex(&bt.root), First: key,
+		Keys: []string{key}, Values: []string{"7"}, Proof: q}
+}
+
+// probeRangeCfg finds out which variant of trie2.VerifyRangeProof's path resolution the tree under test
+// contains (model RCfg): "<checkHash><earlyValue><leafHash>".
+func (c *ctx) probeRangeCfg() string {
+	rr := lib.NewRNG(12345)
+	b := func(x bool) string {
+		if x {
+			return "1"
+		}
+		return "0"
+	}
+	spec := TrieSpec{Impl: "trie2", Hash: "ped", Height: 251, KVs: []KV{
+		{K: strings.Repeat("0", 251), V: "2"}, {K: strings.Repeat("0", 250) + "1", V: "3"}, {K: "1" + strings.Repeat("0", 250), V: "5"}}}
+	bt, err := buildTrie(&spec)
+	if err != nil {
+		c.res.Note("range probe: %v", err)
+		return "010"
+	}
+	rootHex := fhex(&bt.root)
+	key := spec.KVs[0].K
+	accepted := func(cl *RangeClaim) bool { _, class, _ := realVerifyRange(cl); return class == "ok" }
+	// (1) a node that does not hash to the root stored under the root hash
+	forged := accepted(&RangeClaim{Impl: "trie2", Root: rootHex, First: key, Keys: []string{key}, Values: []string{"3e7"},
+		Proof: Proof{{Kind: "E", Key: rootHex, Path: key, C: Child{T: "v", F: "3e7"}}}})
+	// (2) the on-path child of the root node re-typed as a value node, its hash claimed as the value
+	early := false
+	if p, err := bt.rangeProof(key, key); err == nil && len(p) >= 2 && p[0].Kind == "B" {
+		q := p.clone()
+		for i := range q {
+			q[i].Cache = ""
+		}
+		inner := q[0].L.F
+		q[0].L = Child{T: "v", F: inner}
+		early = accepted(&RangeClaim{Impl: "trie2", Root: rootHex, First: key, Keys: []string{key}, Values: []string{inner}, Proof: q})
+	}
+	// (3) leaf value = hash of a node in the set, leaf offered as a hash child
+	leafWalk := false
+	for i := 0; i < 5 && !leafWalk; i++ {
+		if cl := leafIsNodeHashClaim(rr); cl != nil {
+			leafWalk = accepted(cl)
+			if !leafWalk {
+				break
+			}
+		}
+	}
+	return b(!forged) + b(early) + b(!leafWalk)
 }
